@@ -93,14 +93,87 @@ RANK_NAMES = ["M", "K", "N", "P", "Q"]
 
 # ------------------------------------------------------------------ implementation side
 
+# Representation modes (set per case by impl_worker from the case's hash, never part of the Coq case:
+# the model is over mathematical integers, so on a correct implementation every mode gives the
+# same observation).  vkind: how leaf values and non-zero defaults are handed over - plain int,
+# float of the same value (distinct objects: equality-vs-identity slips, 0.0 against a default 0),
+# or an int subclass.  touch: every fiber is built in two stages - all but its last element, then
+# a battery of read-only queries (C10: they change nothing), then the last element by append -
+# and the finished tensor is queried once more, so anything a read remembers (a memoised active
+# range, shape, maximum coordinate or default) is stale by the time the operation under test runs.
+MODE = {"vkind": "int", "touch": False}
+
+
+class SubInt(int):
+    __slots__ = ()
+
+
+def set_mode(mod, case):
+    import hashlib, json
+    if not getattr(mod, "REPR_MODES", True):
+        MODE.update(vkind="int", touch=False)
+        return
+    h = int(hashlib.sha1(json.dumps(case, sort_keys=True).encode()).hexdigest()[:8], 16)
+    MODE["vkind"] = ["int", "int", "float", "sub"][h % 4]
+    MODE["touch"] = (h // 4) % 2 == 1
+
+
+def dress(v):
+    if isinstance(v, bool) or not isinstance(v, int):
+        return v
+    k = MODE["vkind"]
+    return float(v) if k == "float" else SubInt(v) if k == "sub" else v
+
+
+def undress(p):
+    if isinstance(p, bool):
+        return p
+    if isinstance(p, float) and p == p and abs(p) != float("inf") and p == int(p):
+        return int(p)
+    if isinstance(p, int):
+        return int(p)
+    return p
+
+
+def norm_obs(o):
+    """observations are integers: an integral float or int subclass a dressed value left behind is its value"""
+    if isinstance(o, (list, tuple)):
+        return [norm_obs(x) for x in o]
+    return undress(o)
+
+
+def touch(f):
+    """read-only queries on a fiber (results discarded); not while a metrics session is collecting
+    (iterating would legitimately be counted there)"""
+    from fibertree import Metrics
+    if Metrics.isCollecting():
+        return
+    for q in (lambda: f.getActive(), lambda: f.maxCoord(), lambda: f.getShape(), lambda: f.getShape(all_ranks=False),
+              lambda: f.estimateShape(), lambda: f.getDefault(), lambda: f.isEmpty(), lambda: f.countValues(),
+              lambda: [c for c, _ in f.iterActive(tick=False)], lambda: [c for c, _ in f.iterOccupancy(tick=False)], lambda: len(f),
+              lambda: f.getCoords(), lambda: f.minCoord(), lambda: f == f, lambda: repr(f)):
+        try:
+            q()
+        except Exception:
+            pass
+
+
 def build_fiber(t, d=0):
     """tree literal -> fibertree.Fiber (unowned), explicit defaults and empty sub-fibers kept"""
     from fibertree import Fiber
     coords = [c for c, _ in t]
-    pays = [s if isinstance(s, int) else build_fiber(s, d) for _, s in t]
-    f = Fiber(coords, pays) if coords else Fiber([], [])
+    pays = [dress(s) if isinstance(s, int) else build_fiber(s, d) for _, s in t]
+    staged = MODE["touch"] and len(coords) >= 2
+    if staged:
+        f = Fiber(coords[:-1], pays[:-1])
+    else:
+        f = Fiber(coords, pays) if coords else Fiber([], [])
     if d != 0:
-        f._setDefault(d) if hasattr(f, "_setDefault") else None
+        f._setDefault(dress(d)) if hasattr(f, "_setDefault") else None
+    if MODE["touch"]:
+        touch(f)
+    if staged:
+        f.append(coords[-1], pays[-1])
     return f
 
 
@@ -113,9 +186,16 @@ def build_tensor(t, depth, shapes=None, d=0, rank_ids=None, name=None):
         kw["shape"] = list(shapes)
     T = Tensor.fromFiber(rank_ids=rank_ids, fiber=root, **kw)
     if d != 0:
-        T.setDefault(d)
+        T.setDefault(dress(d))
     if name is not None:
         T.setName(name)
+    if MODE["touch"]:
+        touch(T.getRoot())
+        for q in (lambda: T.getShape(), lambda: T.getDefault(), lambda: T.countValues(), lambda: T.isEmpty() if hasattr(T, "isEmpty") else None):
+            try:
+                q()
+            except Exception:
+                pass
     return T
 
 
@@ -135,5 +215,5 @@ def snap(f):
             if n != 1:
                 out.append([c, [-2, n]])
             else:
-                out.append([c, p])
+                out.append([c, undress(p)])
     return out
